@@ -179,7 +179,7 @@ def shrink(case, bucket, budget):
 
 def main(tier, seed, t0):
     quick = tier == "quick"
-    col = core.run_shards(worker, [(seed * 1000 + 800 + k, 200 if quick else 4000) for k in range(16)])
+    col = core.run_shards(worker, [(seed * 1000 + 800 + k, 600 if quick else 8000) for k in range(16)])
     need = ["via:add", "via:update", "cond:header", "cond:exists", "cond:notexists", "cond:size", "cond:envelope", "cond:address",
             "cond:body", "cond:currentdate", "act:fileinto", "act:redirect", "act:stop", "act:keep"]
     missing = [c for c in need if not col.classes.get(c)]
